@@ -6,6 +6,7 @@ for every operand pair inside the encoding's bound, `sat` = a model that is repl
 """
 import math
 import os
+import re
 import struct
 import sys
 import time
@@ -761,6 +762,176 @@ def run(tier, seed, jobs):
     ]
     extra = {"mir_dump_s": log.get("mir_dump_s"), "smt_scripts_dir": log_dir}
     return results, assumptions, extra
+
+
+# ---------------------------------------------------------------------------------------------------------------
+# helpers selected by the emitter (cross-level obligations, driven by plan_props.run_helpers)
+
+GEN_DIR = os.path.join(common.WORK_DIR, "gen_replay")
+
+
+def gen_native_call(rust_path, arg_exprs, log_dir):
+    """Call an arbitrary pub function of the working tree natively (dev + release) through a generated one-file crate."""
+    os.makedirs(os.path.join(GEN_DIR, "src"), exist_ok=True)
+    with open(os.path.join(GEN_DIR, "Cargo.toml"), "w") as f:
+        f.write('[package]\nname = "gen_replay"\nversion = "0.0.0"\nedition = "2021"\n[workspace]\n[dependencies]\n'
+                f'incan_stdlib = {{ path = "{common.REPO}/crates/incan_stdlib" }}\nincan_core = {{ path = "{common.REPO}/crates/incan_core" }}\n'
+                '[profile.dev]\noverflow-checks = true\n[profile.release]\noverflow-checks = false\n')
+    with open(os.path.join(GEN_DIR, "src", "main.rs"), "w") as f:
+        f.write("fn main() {\n    std::panic::set_hook(Box::new(|_| {}));\n"
+                f"    let r = std::panic::catch_unwind(|| {rust_path}({', '.join(arg_exprs)}));\n"
+                "    match r {\n        Ok(v) => println!(\"OK {:?}\", v),\n"
+                "        Err(p) => { let m = if let Some(s) = p.downcast_ref::<String>() { s.clone() } else if let Some(s) = "
+                "p.downcast_ref::<&str>() { s.to_string() } else { String::from(\"<non-string panic>\") }; println!(\"PANIC {}\", m) }\n    }\n}\n")
+    import shutil
+    shutil.copyfile(os.path.join(common.REPO, "Cargo.lock"), os.path.join(GEN_DIR, "Cargo.lock"))
+    res = {}
+    for prof in ("dev", "release"):
+        cmd = ["cargo", "run", "-q", "--offline", "--target-dir", os.path.join(GEN_DIR, "target")] + (["--release"] if prof == "release" else [])
+        rc, out, _, to = common.run(cmd, cwd=GEN_DIR, timeout=600, log=os.path.join(log_dir, f"gen_replay_{prof}.log"))
+        lines = [l for l in out.strip().splitlines() if l.startswith(("OK ", "PANIC "))]
+        res[prof] = lines[-1] if lines else f"ERROR rc={rc} {out.strip()[-300:]}"
+    return res
+
+
+def doc_value(kk, a, b):
+    """Documented result for concrete (already promoted where applicable) operands: ('OK', value) | ('PANIC', text)"""
+    if b == 0:
+        return ("PANIC", ZERO_DIV_TEXT)
+    if kk == "div":
+        return ("OK", float(a) / float(b))
+    if isinstance(a, int) and isinstance(b, int):
+        return ("OK", a % b if kk == "mod" else a // b)
+    fa, fb = float(a), float(b)
+    if kk == "mod":
+        return ("OK", py_fmod_kernel(fa, fb))
+    q = fa / fb
+    return ("OK", float(math.floor(q)) if math.isfinite(q) else q)
+
+
+def rust_arg(v, promoted):
+    if isinstance(v, int):
+        return f"(({v}i128) as i64) as f64" if promoted else f"(({v}i128) as i64)"
+    return f"f64::from_bits(0x{f64_bits(v):016x}u64)"
+
+
+def native_matches(line, want):
+    if want[0] == "PANIC":
+        return line == "PANIC " + want[1]
+    if not line.startswith("OK "):
+        return False
+    txt = line[3:].strip()
+    if isinstance(want[1], float):
+        try:
+            return same_float(float(txt), want[1])
+        except ValueError:
+            return False
+    try:
+        return int(txt) == want[1]
+    except ValueError:
+        return False
+
+
+def helper_obligation(p_std, p_core, path, name, lt, rt, lprom, rprom, kk, pre_texts, fp_fmt, log_dir):
+    """`path(name)` is called with argument kinds (lt, rt) after the plan's conversions; lprom/rprom say that the argument is an
+    int operand promoted with `as f64`. Decide: raise iff divisor zero, no other failure, value = documented kernel."""
+    t0 = time.time()
+    r = {"id": f"H-{name}({'int->' if lprom else ''}{lt},{'int->' if rprom else ''}{rt})", "helper": path, "operands": f"({lt}, {rt})", "pre": list(pre_texts)}
+    try:
+        has_fp = "f64" in (lt, rt) or kk == "div"
+        c = Ctx(p_std, "bv" if has_fp else "int", 64, *fp_fmt)
+        e = c.enc
+        a_src = c.ivar("a") if (lt == "i64" or lprom) else c.fvar("a")
+        b_src = c.ivar("b") if (rt == "i64" or rprom) else c.fvar("b")
+        a_arg = symex.S("fp", e.int_to_fp(a_src)) if lprom else a_src
+        b_arg = symex.S("fp", e.int_to_fp(b_src)) if rprom else b_src
+        f = p_std.lookup(name) or p_std.lookup("num::" + name)
+        if f is None:
+            r.update(status="inconclusive", reason=f"helper `{path}` is not in the incan_stdlib MIR dump", wall_s=round(time.time() - t0, 2))
+            return r
+        generic = any(t in ("L", "R") for _, t in f.params)
+        subst = {"L": lt, "R": rt} if generic else {}
+        ok, v, panics = c.call(p_std, f.name, [a_arg, b_arg], subst)
+        raise_c, other = zero_div_split(panics)
+        bz = e.icmp("Eq", b_src.term, e.int_const(0)) if b_src.sort == "int" else f"(fp.isZero {b_src.term})"
+        pa = a_arg if a_arg.sort == "fp" else symex.S("fp", e.int_to_fp(a_arg))
+        pb = b_arg if b_arg.sort == "fp" else symex.S("fp", e.int_to_fp(b_arg))
+        extra = []
+        if kk == "div":
+            okr, ref = "true", f"(fp.div RNE {pa.term} {pb.term})"
+        elif lt == "i64" and rt == "i64":
+            okr, ref, _ = c.call(p_std, "num::py_mod_i64_impl" if kk == "mod" else "num::py_floor_div_i64_impl", [a_arg, b_arg])
+            if kk == "fdiv":
+                extra = [neg(f"(and {e.icmp('Eq', a_arg.term, e.int_const(e.imin()))} {e.icmp('Eq', b_arg.term, e.int_const(-1))})")]
+        elif kk == "mod":
+            okr, ref, _ = c.call(p_std, "num::py_mod_f64_impl", [pa, pb])
+        else:
+            okr, ref = "true", f"(fp.roundToIntegral RTN (fp.div RNE {pa.term} {pb.term}))"
+        goal = conj([f"(= {raise_c} {bz})", neg(other) if not extra else f"(=> {conj(extra)} {neg(other)})",
+                     f"(=> (and {neg(bz)} {conj(extra + [okr])}) (and {ok} (= {v} {ref})))"])
+        pre = list(pre_texts)
+        r["functions_encoded"] = [x + " (MIR)" for x in c.ex.encoded]
+        base = os.path.join(log_dir, "H-" + re.sub(r"[^A-Za-z0-9_]", "_", r["id"]))
+        slv = "cvc5"
+        vac = solver.check(c.script(pre), [], slv, 120, save_as=base + ".vac.smt2")
+        if vac.status != "sat":
+            r.update(status="inconclusive", reason=f"vacuity twin {vac.status}", wall_s=round(time.time() - t0, 2))
+            return r
+        res = solver.check(c.script(pre + [neg(goal)]), ["a", "b"], slv, 300 if has_fp else 120, mem_gb=12, save_as=base + ".smt2")
+        r["solver"] = f"{slv}: {res.status} in {res.wall:.2f} s"
+        r["wall_s"] = round(time.time() - t0, 2)
+        if res.status == "unsat":
+            r["status"] = "held"
+            return r
+        if res.status != "sat":
+            r.update(status="inconclusive", reason="solver: " + res.raw[:200])
+            return r
+        av = model_int(res.model, "a", e) if a_src.sort == "int" else model_fp(res.model, "a", e)
+        bv = model_int(res.model, "b", e) if b_src.sort == "int" else model_fp(res.model, "b", e)
+        rust_path = "incan_stdlib::num::" + name
+        n = gen_native_call(rust_path, [rust_arg(av, lprom), rust_arg(bv, rprom)], log_dir)
+        pa_v = float(av) if (lprom or isinstance(av, float)) else av
+        pb_v = float(bv) if (rprom or isinstance(bv, float)) else bv
+        want = doc_value(kk, pa_v, pb_v)
+        bad = any(not native_matches(line, want) for line in n.values())
+        text = f"{rust_path}({av!r}{' as f64' if lprom else ''}, {bv!r}{' as f64' if rprom else ''}) -> {n}; documented: {want}"
+        r["native"] = text
+        if bad:
+            os.makedirs(os.path.join(common.REPLAYS_DIR, "C04"), exist_ok=True)
+            rp = os.path.join(common.REPLAYS_DIR, "C04", base.split("/")[-1] + ".replay")
+            with open(rp, "w") as fh:
+                fh.write(f"mirx helper {rust_path} {kk} {rust_arg(av, lprom).replace(' ', '')} {rust_arg(bv, rprom).replace(' ', '')} "
+                         f"{want[0]} {want[1]!r}\n# the emitter selects {path} for `{ {'mod': '%', 'fdiv': '//', 'div': '/'}[kk]}` on ({lt}, {rt}) operands"
+                         f"{' when ' + ' and '.join(pre) if pre else ''}\n# {text}\n")
+            r.update(status="violated", replay=rp, counterexample={"a": repr(av), "b": repr(bv), "native": text})
+        else:
+            r.update(status="inconclusive", reason=f"model does not reproduce natively: {text}")
+        return r
+    except (mir.Unsupported, symex.PathExplosion) as ex_:
+        r.update(status="inconclusive", reason=f"encoder does not support the current code: {ex_}", wall_s=round(time.time() - t0, 2))
+        return r
+
+
+def replay_generated(pid, path):
+    line = open(path).readline().split()
+    # mirx helper <rust_path> <kk> <arg_a> <arg_b> <OK|PANIC> <value...>
+    rust_path, kk, a, b = line[2], line[3], line[4], line[5]
+    want_kind = line[6]
+    want_val = " ".join(line[7:]).strip("'")
+    log_dir = os.path.join(common.WORK_DIR, pid, "replay")
+    os.makedirs(log_dir, exist_ok=True)
+    fix = lambda x: x.replace("asi64", " as i64").replace("asf64", " as f64")  # noqa: E731
+    n = gen_native_call(rust_path, [fix(a), fix(b)], log_dir)
+    want = (want_kind, want_val if want_kind == "PANIC" else (float(want_val) if ("." in want_val or "e" in want_val or "inf" in want_val or "nan" in want_val) else int(want_val)))
+    bad = False
+    for prof, l in n.items():
+        okp = native_matches(l, want)
+        bad = bad or not okp
+        say(f"native {prof}: {rust_path}({fix(a)}, {fix(b)}) -> {l}; documented: {want} -> {'ok' if okp else 'DIFFERS'}")
+    if bad:
+        say(f"VIOLATION property={pid} replay={path}")
+        return 1
+    return 0
 
 
 def documented(fn, a_txt, b_txt):
